@@ -78,6 +78,7 @@ inline void sim_defaults_from_seed(Cfg& c, Rng& r, int nranks) {
     c.def("lat", nranks > 1 ? r.pct(70) : 0);
     c.def("maxlat", r.pick(std::vector<int>{1, 5, 20, 50, 200}));
     c.def("rdv", r.pct(50) ? r.pick(std::vector<int>{10, 30, 60, 100}) : 0);
+    c.def("lazy", r.pct(50) ? 100 : 0);
     c.def("stall", r.pct(50) ? r.pick(std::vector<int>{2, 5, 20, 50}) : 0);
     c.def("maxstall", r.pick(std::vector<int>{20, 100, 400}));
     c.def("speeds", r.pct(60));
@@ -97,6 +98,7 @@ inline sim::Options sim_options(const Cfg& c, int nranks, uint64_t seed) {
     o.policy = (int)c.i("pol", 0);
     o.latency = c.i("lat", 0) != 0; o.max_latency = (int)c.i("maxlat", 50);
     o.rdv_pct = (int)c.i("rdv", 0);
+    o.lazy_isend_pct = (int)c.i("lazy", 0);
     o.stall_permille = (int)c.i("stall", 0); o.max_stall = (int)c.i("maxstall", 200);
     o.speeds = c.i("speeds", 0) != 0;
     o.bcast_wait_pct = (int)c.i("bwait", 0);
@@ -111,7 +113,7 @@ inline sim::Options sim_options(const Cfg& c, int nranks, uint64_t seed) {
 inline std::string stats_json(const sim::Stats& s) {
     std::ostringstream o;
     o << "{\"steps\":" << s.steps << ",\"yields\":" << s.yields << ",\"sends\":" << s.sends << ",\"sends_rdv\":" << s.sends_rdv
-      << ",\"rdv_blocked\":" << s.rdv_blocked << ",\"deliveries\":" << s.deliveries << ",\"reordered\":" << s.delivered_out_of_global_order
+      << ",\"rdv_blocked\":" << s.rdv_blocked << ",\"lazy_isends\":" << s.lazy_isends << ",\"deliveries\":" << s.deliveries << ",\"reordered\":" << s.delivered_out_of_global_order
       << ",\"unexpected\":" << s.unexpected << ",\"matches\":" << s.matches << ",\"self_sends\":" << s.self_sends
       << ",\"wildcard_matches\":" << s.wildcard_matches << ",\"wildcard_competition\":" << s.wildcard_competition
       << ",\"tests_ok\":" << s.tests_ok << ",\"tests_fail\":" << s.tests_fail << ",\"cancels_pending\":" << s.cancels_pending
@@ -141,7 +143,7 @@ struct Outcome {
         phash = phash * 1099511628211ULL ^ r.p2p_hash;
         const sim::Stats& s = r.st;
 #define ACC(f) st.f += s.f
-        ACC(steps); ACC(yields); ACC(sends); ACC(sends_rdv); ACC(rdv_blocked); ACC(deliveries); ACC(delivered_out_of_global_order);
+        ACC(steps); ACC(yields); ACC(sends); ACC(sends_rdv); ACC(rdv_blocked); ACC(lazy_isends); ACC(deliveries); ACC(delivered_out_of_global_order);
         ACC(unexpected); ACC(matches); ACC(self_sends); ACC(wildcard_matches); ACC(wildcard_competition); ACC(tests_ok); ACC(tests_fail);
         ACC(cancels_pending); ACC(cancels_matched); ACC(collectives); ACC(bcast_root_waited); ACC(reduce_left_early); ACC(reduce_shuffled);
         ACC(stalls); ACC(demotions); ACC(omp_regions); ACC(omp_shuffled); ACC(splits); ACC(work_calls); ACC(vtime);
@@ -262,7 +264,7 @@ inline int harness_main(int argc, char** argv, const char* name, const RunFn& ru
 #ifdef HC_MAIN_TU
 extern "C" {
 __attribute__((used, visibility("default"))) const char* __asan_default_options() {
-    return "exitcode=77:detect_leaks=0:abort_on_error=0:allocator_may_return_null=1:detect_stack_use_after_return=0:handle_segv=1";
+    return "exitcode=77:detect_leaks=0:abort_on_error=0:allocator_may_return_null=1:detect_stack_use_after_return=1:handle_segv=1";
 }
 __attribute__((used, visibility("default"))) const char* __ubsan_default_options() { return "print_stacktrace=0:halt_on_error=0"; }
 void __ubsan_get_current_report_data(const char** kind, const char** msg, const char** file, unsigned* line, unsigned* col, char** addr) __attribute__((weak));
